@@ -126,6 +126,18 @@ func c19CheckBuild(c *Check, root string, f family, vname string, r api.BuildRes
 				for _, im := range in.Imports {
 					if !im.External {
 						check("inputs["+k+"].imports", im.Path)
+					} else if strings.HasPrefix(im.Path, filepath.ToSlash(root)+"/") {
+						// an "external" import whose path is a file of this very project, by absolute path
+						rel := strings.TrimPrefix(im.Path, filepath.ToSlash(root)+"/")
+						if _, isInput := g.Inputs[rel]; isInput && !wantAbs {
+							key := "meta:" + label + ":input listed as an external import by absolute path:" + k + " -> " + rel
+							for _, inj := range o.Inject {
+								if filepath.ToSlash(inj) == im.Path {
+									key = "metafile-lists-injected-files-as-external-imports-with-absolute-paths"
+								}
+							}
+							c.Violation(key, map[string]interface{}{"kind": "a bundled input is listed as an external import by absolute path", "family": f.name, "variant": vname, "detail": k + " -> " + im.Path})
+						}
 					}
 				}
 			}
